@@ -153,13 +153,15 @@ class Harness:
         self.conn.updater.clear()
         return p, n
 
-    def step_apply(self, pre, post, reward=None, scale=1.0):
-        """one layer step + trainer call + update; returns (pos, neg, parameter difference)"""
+    def step_apply(self, pre, post, reward=None, scale=1.0, apply=True):
+        """one layer step + trainer call + update; returns (pos, neg, parameter difference).  apply=False: the pending
+        parts are read (as a logger would) but left to accumulate until a later call applies them"""
         self.forward_only(pre, post)
         self.call_trainer(reward, scale)
         p, n = self.parts()
         before = getattr(self.conn, self.param).detach().clone()
-        self.conn.update()
+        if apply:
+            self.conn.update()
         return p, n, getattr(self.conn, self.param).detach().clone() - before
 
 
